@@ -108,6 +108,7 @@ type FuncContract struct {
 	Notes      []string
 	CallSites  map[string]*CallSiteSpec
 	Asserts    []Clause
+	Ghosts     []Clause
 	File       string
 	Line       int
 }
@@ -444,6 +445,19 @@ func parseContractFile(path string, pc *PkgContracts) error {
 				default:
 					return fail(c, "bad callsite clause kind %q", f[1])
 				}
+			case "ghost":
+				// ghost NAME after CALLEE#N = EXPR   -- names the value EXPR has right after that call; usable in
+				// every clause evaluated later on paths through that call
+				f := strings.Fields(c.text)
+				eqi := strings.Index(c.text, "=")
+				if len(f) < 5 || f[1] != "after" || eqi < 0 {
+					return fail(c, "ghost needs `NAME after CALLEE#N = EXPR`")
+				}
+				e, err := ParseExpr(c.text[eqi+1:])
+				if err != nil {
+					return fail(c, "%v", err)
+				}
+				cur.Ghosts = append(cur.Ghosts, Clause{Expr: e, Src: strings.TrimSpace(c.text[eqi+1:]), Name: f[0], Site: f[2]})
 			case "assert":
 				// assert LABEL after CALLEE#N: EXPR    -- intermediate assertion (a cut): proved right after that call
 				// (once its results have been assigned), then available to everything that follows
@@ -535,7 +549,6 @@ func parseContractFile(path string, pc *PkgContracts) error {
 				cur.AllowPanic = true
 			case "note":
 				cur.Notes = append(cur.Notes, c.text)
-			case "ghost":
 			}
 		}
 	}
